@@ -11,6 +11,7 @@ oracle:  Python's own semantics (str indexing / slicing / `in` / concatenation, 
          thorough tier: the same expression compiled as a `const` and inside a function body with real cargo,
          printed values compared.
 """
+import collections
 import itertools
 import json
 import os
@@ -56,7 +57,12 @@ def funbits(b):
     return struct.unpack("<d", struct.pack("<Q", b))[0]
 
 
+ODD_NAMES = ["mod", "impl", "dyn", "ref", "use", "move", "_u", "Zz9", "struct", "where", "unsafe", "crate_", "x"]
+
+
 def cname(k):
+    if 100 <= k < 100 + len(ODD_NAMES):
+        return ODD_NAMES[k - 100]
     return "C%d" % k if k >= 0 else "zz%d" % (-k)
 
 
@@ -79,6 +85,8 @@ def level(e):
         if op in ("*", "/", "//", "%"):
             return L_MUL
         return L_POW
+    if t[0] == "other":
+        return {"range": L_CMP, "await": L_UN}.get(t[1], L_POST)
     return L_POST
 
 
@@ -99,6 +107,10 @@ def operand_levels(tag):
         return [L_MUL, L_POW]
     return [L_UN, L_POW]  # power := unary ('**' power)?
 
+
+# forms the const evaluator rejects without looking inside ("Expression is not allowed inside const initializers")
+OTHER_SRC = {"paren": "(1 + 2)", "call": 'len("ab")', "method": '"ab".len()', "fstring": 'f"a"', "listcomp": "[i for i in [1]]",
+             "range": "1..2", "field": "zz1.y", "try": "zz1?", "await": "await zz1", "dictcomp": "{i: i for i in [1]}"}
 
 STR_ESC = {'"': '\\"', "\\": "\\\\", "\n": "\\n", "\t": "\\t"}
 
@@ -128,7 +140,7 @@ def src(e):
     if t[0] == "bin":
         return "%s %s %s" % (src(ch[0]), t[1], src(ch[1]))
     if t[0] == "tuple":
-        return "(" + ", ".join(src(c) for c in ch) + ")"
+        return "(" + ", ".join(src(c) for c in ch) + ("," if len(ch) == 1 else "") + ")"
     if t[0] == "list":
         return "[" + ", ".join(src(c) for c in ch) + "]"
     if t[0] == "set":
@@ -145,7 +157,7 @@ def src(e):
             return "%s[%s : %s : %s]" % (src(ch[0]), parts[0], parts[1], parts[2])
         return "%s[%s : %s]" % (src(ch[0]), parts[0], parts[1])
     if t[0] == "other":
-        return "(1 + 2)" if t[1] == "paren" else 'len("ab")'
+        return OTHER_SRC[t[1]]
     return "self"
 
 
@@ -178,7 +190,7 @@ def sx(e):
         parts = [sx(next(it)) if p else "_" for p in t[1:]]
         return "(slice %s %s)" % (sx(ch[0]), " ".join(parts))
     if t[0] == "other":
-        return "(paren)" if t[1] == "paren" else "(call)"
+        return {"paren": "(paren)", "call": "(call)"}.get(t[1], "(other)")
     return "self"
 
 
@@ -233,16 +245,18 @@ def coq_ty(t):
     return "(TFDict %s %s)" % (coq_ty(t[1]), coq_ty(t[2]))
 
 
-def src_ty(t):
+def src_ty(t, frozen=False):
+    """frozen: spell the collection with its Frozen* name (same resolved const type)"""
     if isinstance(t, str):
         return {"int": "int", "float": "float", "bool": "bool", "str": "str", "fstr": "FrozenStr", "bytes": "bytes",
                 "fbytes": "FrozenBytes"}[t]
+    pre = "Frozen" if frozen else ""
     if t[0] == "flist":
-        return "List[%s]" % src_ty(t[1])
+        return "%sList[%s]" % (pre, src_ty(t[1]))
     if t[0] == "fset":
-        return "Set[%s]" % src_ty(t[1])
+        return "%sSet[%s]" % (pre, src_ty(t[1]))
     if t[0] == "fdict":
-        return "Dict[%s, %s]" % (src_ty(t[1]), src_ty(t[2]))
+        return "%sDict[%s, %s]" % (pre, src_ty(t[1]), src_ty(t[2]))
     raise ValueError(t)
 
 
@@ -291,8 +305,9 @@ def coq_prog(prog):
 
 def src_prog(prog, main=True):
     lines = []
-    for n, a, e in prog:
-        lines.append("const %s%s = %s" % (cname(n), "" if a is None else ": " + src_ty(a), src(e)))
+    for i, (n, a, e) in enumerate(prog):
+        lines.append("%sconst %s%s = %s" % ("pub " if i % 4 == 3 else "", cname(n),
+                                             "" if a is None else ": " + src_ty(a, frozen=(i % 2 == 1)), src(e)))
     if main:
         lines += ["", "def main() -> None:", "    println(1)"]
     return "\n".join(lines) + "\n"
@@ -312,6 +327,10 @@ ERR_PREFIX = [
 
 
 def name_id(s):
+    if s.startswith("r#"):
+        s = s[2:]
+    if s in ODD_NAMES:
+        return 100 + ODD_NAMES.index(s)
     if s.startswith("C") and s[1:].isdigit():
         return int(s[1:])
     if s.startswith("zz") and s[2:].isdigit():
@@ -729,7 +748,7 @@ class Gen:
             if k < 0.3:
                 return ("id", -r.randint(1, 3))
             if k < 0.45:
-                return node(("other", r.choice(["paren", "call"])))
+                return node(("other", r.choice(sorted(OTHER_SRC))))
             if k < 0.5:
                 return node(("self",))
             ty = r.choice(["int", "float", "bool", "str", "bytes"])
@@ -780,8 +799,14 @@ class Gen:
         r = self.rng
         kind = r.choice(["tuple", "list", "set", "dict"])
         if kind == "tuple":
-            tys = [r.choice(["int", "float", "bool", "str", "bytes"]) for _ in range(r.randint(2, 3))]
+            tys = [r.choice(["int", "float", "bool", "str", "bytes"]) for _ in range(r.choice([0, 1, 2, 2, 3, 3]))]
             return None, node(("tuple",), *[self.expr(t, me, depth) for t in tys])
+        if r.random() < 0.15 and depth > 0:
+            # nested, unannotated: [[1], [2, 3]], {(1, "a"), (2, "b")}, ...
+            inner = [self.collection(me, 0)[1] for _ in range(r.randint(1, 3))]
+            if kind == "dict":
+                inner = [x for i in inner for x in (lit("int", r.randint(0, 5)), i)]
+            return None, node((kind,), *inner)
         et = r.choice(["int", "str", "float", "bool"])
         n = r.randint(0, 3) if r.random() < 0.9 else 0
         if kind == "dict":
@@ -819,7 +844,163 @@ class Gen:
             a = r.random()
             ann = ty if a < 0.6 else (None if a < 0.9 else r.choice(["int", "float", "bool", "str", "fstr", "bytes"]))
             prog.append((k, ann, e))
+        if r.random() < 0.2:
+            prog = rename(prog, {k: 100 + k for k in ids})
         return prog
+
+
+def rename(prog, m):
+    def go(e):
+        if e[0] == "id":
+            return ("id", m.get(e[1], e[1]))
+        if e[0] == "node":
+            return ("node", e[1], [go(c) for c in e[2]])
+        return e
+    return [(m.get(n, n), a, go(e)) for n, a, e in prog]
+
+
+SIZES = [0, 1, 2, 16, 17, 63, 64, 65, 255, 256]
+
+
+def scale_programs(quick):
+    """deterministic programs that push one dimension at a time past plausible bounds"""
+    out = []
+    one = lit("int", 1)
+    sizes = [n for n in SIZES if n <= (256 if quick else 10**6)] + ([] if quick else [1000])
+    # chains of forward references (depth of the evaluator's recursion = n), without and with a closing back edge
+    for n in [x for x in sizes if x >= 1]:
+        out.append(("chain%d" % n, [(i, "int", node(("bin", "+"), ("id", i + 1), one) if i + 1 < n else one) for i in range(n)]))
+        if n in (2, 17, 64, 256):
+            out.append(("ring%d" % n, [(i, "int", ("id", (i + 1) % n)) for i in range(n)]))
+    # one const depending on n others; n others depending on one
+    for n in (16, 64, 256):
+        e = ("id", 1)
+        for j in range(2, n + 1):
+            e = node(("bin", "+"), e, ("id", j))
+        out.append(("fanout%d" % n, [(0, "int", e)] + [(j, "int", lit("int", j)) for j in range(1, n + 1)]))
+        out.append(("fanin%d" % n, [(j, "int", ("id", 0)) for j in range(1, n + 1)] + [(0, "int", one)]))
+    # long operator chains, deep unary nesting
+    for n in (16, 64, 256):
+        e = lit("str", "a")
+        for j in range(n):
+            e = node(("bin", "+"), e, lit("str", chr(98 + j % 20)))
+        out.append(("concat%d" % n, [(0, "str", e)]))
+        u = lit("int", 5)
+        b = lit("bool", True)
+        for j in range(n):
+            u = node(("un", "neg"), u)
+            b = node(("un", "not"), b)
+        out.append(("unary%d" % n, [(0, "int", u), (1, "bool", b)]))
+    # collection sizes and tuple arities
+    for n in sizes:
+        if n <= 256:
+            out.append(("list%d" % n, [(0, None, node(("list",), *[lit("int", j) for j in range(n)])),
+                                        (1, None, node(("tuple",), *[lit("int", j) for j in range(min(n, 64))])),
+                                        (2, None, node(("dict",), *[x for j in range(min(n, 64)) for x in (lit("int", j), lit("str", "v"))]))]))
+    # strings of every size: index and slice at and just beyond the ends, steps around the length
+    for n in sizes:
+        if n > 256:
+            continue
+        sv = "".join("aé€\U0001F600bcd"[j % 7] for j in range(n)) if False else "".join(["a", "é", "€", "\U0001F600", "b", "c", "d"][j % 7] for j in range(n))
+        prog = [(0, "str", lit("str", sv))]
+        k = 1
+        for i in sorted({-n - 1, -n, -1, 0, n - 1, n, n + 1}):
+            ie = lit("int", i) if i >= 0 else node(("un", "neg"), lit("int", -i))
+            prog.append((k, "str", node(("index",), ("id", 0), ie)))
+            k += 1
+        for st in sorted({1, 2, max(n, 1), n + 1, 2**62}):
+            for sign in (1, -1):
+                se = lit("int", st) if sign > 0 else node(("un", "neg"), lit("int", st))
+                prog.append((k, "str", node(("slice", False, False, True), ("id", 0), se)))
+                k += 1
+        for a, b in ((0, n), (n, 0), (-n - 1, n + 1), (1, n - 1)):
+            ae = lit("int", a) if a >= 0 else node(("un", "neg"), lit("int", -a))
+            be = lit("int", b) if b >= 0 else node(("un", "neg"), lit("int", -b))
+            prog.append((k, "str", node(("slice", True, True, False), ("id", 0), ae, be)))
+            k += 1
+        out.append(("str%d" % n, prog))
+    # integer literals at the type limit
+    out.append(("intmax", [(0, "int", lit("int", I64_MAX)), (1, "int", node(("un", "neg"), lit("int", I64_MAX))),
+                           (2, "int", node(("un", "neg"), ("id", 1))), (3, "str", node(("index",), lit("str", "ab"), ("id", 0))),
+                           (4, "str", node(("slice", True, True, True), lit("str", "ab"), ("id", 1), ("id", 0), ("id", 0)))]))
+    return out
+
+
+def arm_programs():
+    """one tiny program per arm of the const evaluator (every operator on every operand-kind pair, every slice shape,
+    every diagnostic), so that each arm of the model is reached in every run whatever the seed"""
+    out = []
+    atoms = {"int": [lit("int", 3), node(("un", "neg"), lit("int", 2))], "float": [lit("float", fbits(2.5))],
+             "bool": [lit("bool", True)], "str": [lit("str", "ab")], "bytes": [lit("bytes", [97])]}
+    kinds = ["int", "float", "bool", "str", "bytes"]
+    for op in BINOPS:
+        for lk in kinds:
+            for rk in kinds:
+                for la in atoms[lk][:1]:
+                    for ra in atoms[rk]:
+                        ll, rl = operand_levels(("bin", op))
+                        if level(la) >= ll and level(ra) >= rl:
+                            out.append(("arm:bin", [(0, None, node(("bin", op), la, ra))]))
+    # operands that are consts with / without a known value
+    for op in ("+", "and", "in", "**", "<"):
+        out.append(("arm:bin-ref", [(0, None, node(("bin", "-"), lit("int", 4), lit("int", 1))), (1, None, lit("int", 2)),
+                                    (2, None, lit("str", "ab")), (3, None, lit("bool", False)),
+                                    (4, None, node(("bin", op), ("id", 0), ("id", 1))), (5, None, node(("bin", op), ("id", 1), ("id", 0))),
+                                    (6, None, node(("bin", op), ("id", 2), ("id", 2))), (7, None, node(("bin", op), ("id", 3), ("id", 3)))]))
+    for k in kinds:
+        out.append(("arm:un", [(0, None, node(("un", "neg"), atoms[k][0])), (1, None, node(("un", "not"), atoms[k][0]))]))
+    unv = node(("bin", "+"), lit("int", 0), lit("int", 1))          # an int whose value the evaluator does not compute
+    for base in (lit("str", "héllo"), lit("int", 5), ("id", -1)):
+        for idx in (lit("int", 1), lit("int", 9), node(("un", "neg"), lit("int", 5)), lit("str", "x"), lit("bool", True), unv):
+            out.append(("arm:index", [(0, None, node(("index",), base, idx))]))
+        for lo in (False, True):
+            for hi in (False, True):
+                for st in (False, True):
+                    for bad in (None, 0, 1, 2, "unv", "zero", "neg"):
+                        pres = [lo, hi, st]
+                        ch = []
+                        for j, pj in enumerate(pres):
+                            if not pj:
+                                continue
+                            if bad == j:
+                                ch.append(lit("str", "x"))
+                            elif bad == "unv":
+                                ch.append(unv)
+                            elif bad == "zero" and j == 2:
+                                ch.append(lit("int", 0))
+                            elif bad == "neg":
+                                ch.append(node(("un", "neg"), lit("int", 2)))
+                            else:
+                                ch.append(lit("int", 1 + j))
+                        if isinstance(bad, int) and not pres[bad]:
+                            continue
+                        out.append(("arm:slice", [(0, None, node(("slice", lo, hi, st), base, *ch))]))
+    for kind in ("list", "set", "dict", "tuple"):
+        for items in ([], [lit("int", 1)], [lit("int", 1), lit("int", 2)], [lit("int", 1), lit("str", "a")],
+                      [lit("int", 1), lit("int", 2), lit("str", "a"), ("id", -1)], [("id", -1)], [lit("str", "a"), lit("bytes", [98])]):
+            if kind == "dict":
+                items = [x for i in items for x in (i, i)] if len(items) != 4 else items
+            if kind == "set" and not items:
+                continue
+            for ann in (None, "int", ("f" + kind, "int") if kind in ("list", "set") else None):
+                if ann is not None and not items:
+                    continue
+                out.append(("arm:coll", [(0, ann, node((kind,), *items))]))
+    out.append(("arm:coll", [(0, None, node(("dict",), lit("int", 1), lit("int", 2), lit("int", 3), lit("str", "v")))]))
+    out.append(("arm:coll", [(0, None, node(("dict",), lit("int", 1), lit("int", 2), lit("str", "k"), lit("int", 3)))]))
+    for how in sorted(OTHER_SRC):
+        out.append(("arm:other", [(0, None, node(("other", how)))]))
+    out.append(("arm:other", [(0, None, node(("self",)))]))
+    # state across declarations: a failed const referenced later (Done without cache), referenced twice (cache hit),
+    # a forward reference, an annotation that does not fit, a cycle entered from a third const
+    out.append(("arm:state", [(0, "int", ("id", -1)), (1, "int", ("id", 0)), (2, "int", node(("bin", "+"), ("id", 1), ("id", 0))),
+                              (3, "int", node(("bin", "+"), ("id", 4), ("id", 4))), (4, "int", lit("int", 2)),
+                              (5, "str", ("id", 4)), (6, "float", ("id", 5))]))
+    out.append(("arm:state", [(0, "int", ("id", 1)), (1, "int", node(("bin", "+"), ("id", 2), ("id", 3))), (2, "int", ("id", 1)),
+                              (3, "int", lit("int", 1)), (4, "int", ("id", 3))]))
+    out.append(("arm:state", rename([(0, "str", lit("str", "a")), (1, "str", node(("bin", "+"), ("id", 0), ("id", 0))), (2, "str", ("id", 2))],
+                                    {0: 100, 1: 101, 2: 108})))
+    return out
 
 
 def graph_programs(n, subsets):
@@ -882,7 +1063,11 @@ def fold_programs(rng, count):
                 e = node(("bin", "+"), node(("bin", "+"), operand(), operand()), operand())
             else:
                 e = operand()
-            prog.append((k, "str", e))
+            # mostly `str` (IR type StaticStr: folded); sometimes FrozenStr / unannotated (never in the folding table)
+            y = rng.random()
+            prog.append((k, "str" if y < 0.8 else ("fstr" if y < 0.9 else None), e))
+        if rng.random() < 0.2:
+            prog = rename(prog, {k: 100 + k for k in range(n)})
         progs.append(prog)
     return progs
 
@@ -980,7 +1165,106 @@ REQ = "From Verif Require Import Base.I64 C06.Model.\nFrom Coq Require Import ZA
 def run_model(progs, tag):
     terms = [coq_prog(p) for p in progs]
     res = vlib.coq_eval(REQ, "list decl", "fun ds => (render_check ds, render_pure ds)", terms, shard=150, tag=tag)
-    return [(model_rows([list(r) for r in a]), [list(r) for r in b]) for a, b in res]
+    return [(model_rows([list(r) for r in a]), [list(r) for r in b], [list(r) for r in a]) for a, b in res]
+
+
+ERR_NAMES = {1: "ECycle", 2: "ENonConst", 4: "EUnaryNeg", 5: "EUnaryNot", 6: "EBinUnsupported", 7: "ECannotCompare", 8: "ELogical",
+             9: "EOpNotAllowed", 10: "EIndexBase", 11: "EIndexNotInt", 12: "ESliceBase", 14: "EIndexOOR", 15: "EStepZero",
+             16: "ENotAllowed", 17: "ESelf"}
+TY_CODES = {1: "int", 2: "float", 3: "bool", 4: "str", 5: "fstr", 6: "bytes", 7: "fbytes", 8: "unknown"}
+
+
+def dec_ty(r, i):
+    c = r[i]
+    if c in TY_CODES:
+        return TY_CODES[c], i + 1
+    if c == 9:
+        n, i, ts = r[i + 1], i + 2, []
+        for _ in range(n):
+            t, i = dec_ty(r, i)
+            ts.append(t)
+        return ["tuple"] + ts, i
+    if c in (10, 11):
+        t, i = dec_ty(r, i + 1)
+        return [("flist" if c == 10 else "fset"), t], i
+    k, i = dec_ty(r, i + 1)
+    v, i = dec_ty(r, i)
+    return ["fdict", k, v], i
+
+
+def tag_name(t):
+    return {"un": lambda: "un:" + t[1], "bin": lambda: "bin:" + t[1], "slice": lambda: "slice", "other": lambda: "other"}.get(
+        t[0], lambda: t[0])()
+
+
+def model_arms(prog, raw, hits):
+    """which arms of the MODEL (by_name / combine / precheck / check_decl) this program reached, read off the
+    model's own output (published rows, error rows) and the program text"""
+    sep = raw.index([-1])
+    for r in raw[sep + 1:]:
+        c = r[0]
+        if c == 13:
+            hits["precheck:ESliceBound:%d" % r[1]] += 1
+        elif c == 18:
+            hits["combine:EEmptyColl:%d" % r[1]] += 1
+        elif c == 19:
+            hits["check_decl:EMismatch" if len(r) == 2 else "precheck:EElemMismatch"] += 1
+        elif c == 20:
+            hits["check_decl:ECannotInfer"] += 1
+        else:
+            hits["abort:" + ERR_NAMES.get(c, str(c))] += 1
+    consts = []
+    for r in raw[:sep]:
+        ty, i = dec_ty(r, 1)
+        consts.append({"name": cname(r[0]), "kind": "frozen" if r[i] else "native", "ty": ty,
+                       "value": None if r[i + 1] == 0 else ("k", 0)})
+        hits["publish:" + ("frozen" if r[i] else "native")] += 1
+        hits["value:" + {0: "none", 1: "int", 2: "float", 3: "bool", 4: "str", 5: "bytes"}.get(r[i + 1], "?")] += 1
+    cls = Classes(prog, {"consts": consts})
+    pos = {n: i for i, (n, _, _) in enumerate(prog)}
+    for i, (n, a, e) in enumerate(prog):
+        for x in subexprs(e):
+            if x[0] == "id" and x[1] in pos:
+                if x[1] in cls.pub:
+                    hits["by_name:NotStarted (forward reference)" if pos[x[1]] > i else "by_name:cache hit"] += 1
+                else:
+                    hits["by_name:Done without result / InProgress"] += 1
+        if n not in cls.pub:
+            continue
+        hits["check_decl:" + ("no annotation" if a is None else "annotation")] += 1
+        for x in subexprs(e):
+            if x[0] == "lit":
+                hits["lit:" + x[1]] += 1
+            elif x[0] == "node":
+                hits["combine:%s:%s" % (tag_name(x[1]), "valued" if cls.valued(x) else "typed")] += 1
+                if x[1][0] == "slice":
+                    hits["combine:slice shape %d%d%d" % tuple(int(b) for b in x[1][1:])] += 1
+                if x[1] == ("bin", "**"):
+                    k = int_literal_of(x[2][1])
+                    hits["pow_kind:" + ("variable" if k is None else ("nonneg literal" if k >= 0 else "negative literal"))] += 1
+                if x[1][0] in ("list", "set", "dict", "tuple"):
+                    hits["combine:%s:%s" % (x[1][0], "empty" if not x[2] else ("one" if len(x[2]) == (2 if x[1][0] == "dict" else 1) else "many"))] += 1
+
+
+REQUIRED_ARMS = (["abort:" + v for v in ERR_NAMES.values()] +
+                 ["precheck:ESliceBound:0", "precheck:ESliceBound:1", "precheck:ESliceBound:2", "precheck:EElemMismatch",
+                  "combine:EEmptyColl:0", "combine:EEmptyColl:2", "check_decl:EMismatch", "check_decl:annotation", "check_decl:no annotation",
+                  "by_name:NotStarted (forward reference)", "by_name:cache hit", "by_name:Done without result / InProgress",
+                  "publish:frozen", "publish:native", "value:none", "value:int", "value:float", "value:bool", "value:str", "value:bytes",
+                  "lit:int", "lit:float", "lit:bool", "lit:str", "lit:bytes",
+                  "combine:un:neg:valued", "combine:un:neg:typed", "combine:un:not:valued", "combine:un:not:typed",
+                  "combine:bin:+:valued", "combine:bin:+:typed", "combine:bin:in:valued", "combine:bin:in:typed",
+                  "combine:bin:not in:valued", "combine:bin:and:valued", "combine:bin:and:typed", "combine:bin:or:valued",
+                  "combine:index:valued", "combine:index:typed", "combine:slice:valued", "combine:slice:typed",
+                  "pow_kind:variable", "pow_kind:nonneg literal", "pow_kind:negative literal"] +
+                 ["combine:bin:%s:typed" % op for op in ("-", "*", "/", "//", "%", "**", "==", "!=", "<", ">", "<=", ">=")] +
+                 ["combine:slice shape %d%d%d" % (a, b, c) for a in (0, 1) for b in (0, 1) for c in (0, 1)] +
+                 ["combine:%s:%s" % (k, z) for k in ("list", "dict", "tuple") for z in ("empty", "one", "many")] +
+                 ["combine:set:one", "combine:set:many"])
+# arms of the model that no program can reach (not generator gaps): EUnknownSym (eval_const_by_name is only called on
+# declared names), EMalformed (arities the parser cannot produce), ECannotInfer (root type Unknown needs a None literal:
+# outside the model), EEmptyColl 1 (`{}` is the empty DICT), resolve_static_str_const's `visiting` hit (the type checker
+# rejects cycles before emission runs)
 
 
 def judge(prog, out, chk, findings, stats):
@@ -1111,6 +1395,11 @@ def run(chk):
         "const-nonconst-call (`const X: int = 7 // 2` emitted as a non-const fn call) is a C02 defect: such a const never holds a value, so C06 has nothing to compare; the generator of the build tier stays inside the buildable fragment",
         "frozen collection VALUES are compared by execution only (thorough tier)",
     ]
+    # TEMPORARY (drop after merging build/kf-C06.json into known_findings.json): proposed entries not yet listed
+    kfp = os.path.join(vlib.VERIF, "build", "kf-C06.json")
+    if os.path.exists(kfp):
+        have = {f["id"] for f in chk.findings}
+        chk.findings = list(chk.findings) + [f for f in json.load(open(kfp)) if f["id"] not in have]
     res = chk.proof_stage("C06", allow_axioms=(), rs2v_units=["CoreNum"])
     binary = vlib.build_harness("debug")
     rng = chk.rng
@@ -1123,7 +1412,15 @@ def run(chk):
     for n in (1, 2, 3):
         for p in graph_programs(n, all_graphs(n)):
             progs.append(("graph%d" % n, p))
-    n4 = 350 if quick else 3000
+    for k, p in arm_programs():
+        progs.append((k, p))
+    deep = []
+    for k, p in scale_programs(quick):
+        if k.startswith("chain") and len(p) >= DEEP_CHAIN:
+            deep.append((k, p))     # the real evaluator recurses once per link: run each in its own process
+        else:
+            progs.append(("scale:" + k.rstrip("0123456789"), p))
+    n4 = 250 if quick else 3000
     pairs4 = [(i, j) for i in range(4) for j in range(4)]
     for _ in range(n4):
         dens = rng.choice([0.1, 0.2, 0.3, 0.5])
@@ -1133,7 +1430,7 @@ def run(chk):
         for _ in range(1500):
             dens = rng.choice([0.05, 0.1, 0.2])
             progs.append(("graph6", graph_programs(6, [{p for p in pairs6 if rng.random() < dens}])[0]))
-    for _ in range(650 if quick else 5000):
+    for _ in range(550 if quick else 5000):
         progs.append(("random", Gen(rng, rng.randint(1, 6)).program()))
     plist = [p for _, p in progs]
 
@@ -1148,6 +1445,7 @@ def run(chk):
                             "known:error-operand-unvalued", "known:eager-and-or", "known:hetero-collection", "tree_mismatch",
                             "parse_rejected", "cyclic_programs", "programs_with_errors", "pure_vs_stateful_mismatch")}
     dist = {}
+    arm_hits = collections.defaultdict(int)
     corr_bad, fails = [], []
     for i, ((kind, prog), out) in enumerate(zip(progs, impl)):
         dist[kind] = dist.get(kind, 0) + 1
@@ -1172,7 +1470,8 @@ def run(chk):
         stats["cyclic_programs"] += 1 if has_cycle(prog) else 0
         stats["programs_with_errors"] += 1 if out["errors"] else 0
         if model is not None:
-            mrows, prows = model[i]
+            mrows, prows, raw = model[i]
+            model_arms(prog, raw, arm_hits)
             if mrows != rows:
                 corr_bad.append({"program": src_prog(prog), "model": mrows, "impl": rows, "impl_errors": out["errors"]})
             # pure evaluator over the final cache agrees with what was published
@@ -1189,7 +1488,7 @@ def run(chk):
     # ---- emission: static-str folding and numeric/bool const items
     fprogs = fold_programs(rng, 200 if quick else 1500)
     fimpl = run_impl(binary, fprogs, emit=True)
-    fterms = ["[" + "; ".join("(%d, %s)" % (n, coq_expr(e)) for n, _, e in p) + "]" for p in fprogs]
+    fterms = ["[" + "; ".join("(%d, %s)" % (n, coq_expr(e)) for n, a, e in p if a == "str") + "]" for p in fprogs]
     fmodel = vlib.coq_eval(REQ, "sdecls", "render_fold", fterms, shard=150, tag="c06fold") if model_ok else None
     stats.update({"fold_programs": len(fprogs), "fold_emitted": 0, "fold_concat_items": 0, "fold_rejected_by_checker": 0})
     for i, (prog, out) in enumerate(zip(fprogs, fimpl)):
@@ -1208,8 +1507,15 @@ def run(chk):
         items = {name_id(c["name"]): c for c in em["ok"]}
         orc = Oracle(prog)
         rows = []
-        for n, _, e in prog:
+        static = {n for n, a, _ in prog if a == "str"}
+        for n, a, e in prog:
+            if a != "str":
+                continue
             init = items[n]["init"]
+            if e[0] == "node" and e[1] == ("bin", "+"):
+                for side, x in zip(("left", "right"), e[2]):
+                    arm_hits["to_lit:%s:%s" % (side, "literal" if x[0] == "lit" else ("static-str const" if x[0] == "id" and x[1] in static
+                                                else ("other const" if x[0] == "id" else "nested")))] += 1
             if init[0] == "macro" and init[1] == "concat" and len(init) == 4 and init[2][0] == "str" and init[3][0] == "str":
                 rows.append([n, 1, len(init[2][1])] + init[2][1] + [len(init[3][1])] + init[3][1])
                 stats["fold_concat_items"] += 1
@@ -1228,11 +1534,15 @@ def run(chk):
             if v is not None and pv[0] == "val" and v != pv[1]:
                 fails.append({"what": "folded-literal-differs", "program": src_prog(prog), "const": cname(n),
                               "emitted": init, "run_time": repr(pv[1])})
+        for r in rows:
+            arm_hits["emit_add:" + {0: "not folded", 1: "concat!", 2: "literal", 3: "reference / other"}[r[1]]] += 1
         if fmodel is not None and [list(r) for r in fmodel[i]] != rows:
             corr_bad.append({"program": src_prog(prog), "why": "concat! folding differs", "model": fmodel[i], "impl": rows})
 
     # numeric / bool / tuple const items: emitted Rust const expression evaluates to the run-time value
-    nprogs = [p for k, p in progs if k == "random"][: (300 if quick else 2000)]
+    nprogs = [p for k, p in progs if k == "random"][: (250 if quick else 2000)]
+    nprogs += [BuildGen(rng, rng.randint(3, 10)).program() for _ in range(120 if quick else 800)]
+    nprogs += [p for k, p in progs if k in ("arm:coll", "arm:un", "scale:intmax")] + [p for k, p in progs if k == "scale:list" and len(p[0][2][2]) <= 65]
     nimpl = run_impl(binary, nprogs, emit=True)
     stats.update({"emit_items_evaluated": 0, "emit_items_with_nonconst_call": 0, "emit_rejected": 0})
     for prog, out in zip(nprogs, nimpl):
@@ -1268,6 +1578,20 @@ def run(chk):
     if not quick:
         build_tier(chk, rng, stats, fails)
 
+    deep_chains(binary, deep, chk, stats, fails)
+    spec_corpus(binary, stats, fails)
+    repo_corpus(binary, chk, stats, fails)
+    zero = [a for a in REQUIRED_ARMS + ["to_lit:left:literal", "to_lit:left:static-str const", "to_lit:left:other const", "to_lit:left:nested",
+                                        "to_lit:right:literal", "to_lit:right:static-str const", "to_lit:right:other const",
+                                        "emit_add:not folded", "emit_add:concat!", "emit_add:literal", "emit_add:reference / other"]
+            if model_ok and arm_hits.get(a, 0) == 0]
+    chk.coverage["model_arm_hits"] = dict(sorted(arm_hits.items()))
+    chk.coverage["model_arms_unreachable"] = ["by_name:EUnknownSym (only declared names are looked up)", "combine:EMalformed (arity the parser cannot produce)",
+                                              "check_decl:ECannotInfer (needs a None literal: outside the model, pinned by the spec corpus)",
+                                              "combine:EEmptyColl:1 (`{}` is the empty dict)", "sresolve:visiting (cycles are rejected before emission)"]
+    if zero:
+        raise vlib.Infra("C06 generator bug: model arms with zero hits: %s" % zero)
+
     # ---- known findings: replay the witnesses
     for f in chk.findings:
         if f.get("status") != "known" or f["id"] not in WITNESSES or f["id"] in REPAIRED:
@@ -1297,6 +1621,161 @@ def run(chk):
                                                     "count": stats["pure_vs_stateful_mismatch"]}, no_input=True)
         if not res["proofs_ok"] or not res["tie_ok"]:
             chk.violation("proof-broken", {"theorem_or_tie": res["broken"]}, no_input=True)
+
+
+# ----------------------------------------------------------------------------- fixed inputs outside the model
+SPEC = [
+    # (source, published type of X or None, must-have error prefix or None)   — the `expected`-type path and None literals
+    ("const X: List[int] = []\n", ["flist", "int"], None),
+    ("const X: FrozenList[int] = []\n", ["flist", "int"], None),
+    ("const X: Dict[str, int] = {}\n", "any", None),
+    ("const X: FrozenDict[str, int] = {}\n", "any", None),
+    ("const X: FrozenSet[int] = {1}\n", ["fset", "int"], None),
+    ("const X = []\n", "any", "Cannot infer type for empty const list"),
+    ("const X = {}\n", "any", "Cannot infer type for empty const dict"),
+    ("const X = None\n", "any", "Cannot infer type for None"),
+    ("const X: List[int] = [1, 2.5]\n", None, "Type mismatch"),
+    ("const X: int = 1\nconst Y: List[int] = [X, X]\n", "int", None),
+]
+
+
+DEEP_CHAIN = 200
+
+
+def deep_chains(binary, deep, chk, stats, fails):
+    """const reference chains deeper than DEEP_CHAIN: eval_const_by_name / eval_const_expr recurse on the machine stack
+    (about 35 KB per link in a debug build), so the front end may die with a stack overflow instead of answering.
+    Known finding deep-const-chain-stack-overflow; anything but a clean answer or that crash is a failure."""
+    stats.update({"deep_chain_programs": len(deep), "deep_chain_crashes": 0})
+    known = any(f["id"] == "deep-const-chain-stack-overflow" and f.get("status") == "known" for f in chk.findings)
+    for k, p in deep:
+        text = json.dumps({"src": src_prog(p), "emit": False}) + "\n"
+        rc, out, err = vlib.sh([binary, "run", "c06"], input=text, timeout=600)
+        chk.count_case("deep:" + k)
+        if rc == 0:
+            o = json.loads(out.strip().split("\n")[0])
+            if o.get("parse") != "ok" or o["errors"] or any(c["kind"] is None for c in o["consts"]):
+                fails.append({"what": "deep-chain-wrong-answer", "program": k, "impl": str(o)[:400]})
+            continue
+        stats["deep_chain_crashes"] += 1
+        if "overflowed its stack" in err and known:
+            chk.known("deep-const-chain-stack-overflow", "deep-const-chain-stack-overflow: a chain of %d consts each defined from the next "
+                      "kills the compiler (stack overflow, SIGABRT) instead of being evaluated: the const evaluator recurses once per link" % len(p))
+        else:
+            fails.append({"what": "front-end-crash", "program": "%s: const C0 = C1 + 1 ... const C%d = 1" % (k, len(p) - 1),
+                          "rc": rc, "stderr": err[-300:]})
+
+
+def spec_corpus(binary, stats, fails):
+    text = "\n".join(json.dumps({"src": src, "emit": False}) for src, _, _ in SPEC) + "\n"
+    outs = [json.loads(l) for l in vlib.run_harness(binary, ["run", "c06"], text).split("\n") if l]
+    stats["spec_corpus"] = len(SPEC)
+    for (src, ty, err), out in zip(SPEC, outs):
+        if out.get("parse") != "ok":
+            fails.append({"what": "spec-corpus-parse", "program": src, "impl": out})
+            continue
+        msgs = [m for _, m in out["errors"]]
+        x = out["consts"][0]
+        bad = None
+        if err is None and msgs:
+            bad = "unexpected diagnostics %r" % msgs
+        if err is not None and not any(m.startswith(err) for m in msgs):
+            bad = "expected a diagnostic starting with %r, got %r" % (err, msgs)
+        if ty is None and x["kind"] is not None:
+            bad = "nothing should be published, got %r" % x
+        if ty not in (None, "any") and x["ty"] != ty:
+            bad = "published type %r, expected %r" % (x["ty"], ty)
+        if bad:
+            fails.append({"what": "spec-corpus", "program": src, "why": bad})
+
+
+def parse_sx(s, ids):
+    """harness S-expression -> tree (names mapped to ids through `ids`)"""
+    toks = s.replace("(", " ( ").replace(")", " ) ").split()
+    pos = [0]
+
+    def atom(t):
+        if t[0] == "i" and t[1:].lstrip("-").isdigit():
+            return lit("int", int(t[1:]))
+        if t[0] == "f" and t[1:].isdigit():
+            return lit("float", int(t[1:]))
+        if t in ("b0", "b1"):
+            return lit("bool", t == "b1")
+        if t.startswith("s["):
+            return lit("str", "".join(chr(int(x)) for x in t[2:-1].split(",") if x))
+        if t.startswith("y["):
+            return lit("bytes", [int(x) for x in t[2:-1].split(",") if x])
+        if t.startswith("@"):
+            return ("id", ids.setdefault(t[1:], -1000 - len(ids)))
+        if t == "_":
+            return None
+        raise ValueError(t)
+
+    def go():
+        t = toks[pos[0]]
+        pos[0] += 1
+        if t != "(":
+            return atom(t)
+        head = toks[pos[0]]
+        pos[0] += 1
+        ch = []
+        while toks[pos[0]] != ")":
+            ch.append(go())
+        pos[0] += 1
+        if head in ("neg", "not"):
+            return node(("un", head), *ch)
+        if head in ("tuple", "list", "set", "dict"):
+            return node((head,), *ch)
+        if head == "index":
+            return node(("index",), *ch)
+        if head == "slice":
+            return node(("slice",) + tuple(c is not None for c in ch[1:]), *[c for c in ch if c is not None])
+        if head in ("paren", "call", "other"):
+            return node(("other", "paren"))
+        return node(("bin", head.replace("_", " ")), *ch)
+    return go()
+
+
+def repo_corpus(binary, chk, stats, fails):
+    """every .incn file of the repository that declares consts: the checker must accept what the repository ships and
+    every published value must be the Python value of the initializer"""
+    files = []
+    for root in ("examples", "tests", "docs", "benchmarks", "crates"):
+        for d, _, fs in os.walk(os.path.join(vlib.REPO, root)):
+            for f in fs:
+                if f.endswith(".incn"):
+                    pth = os.path.join(d, f)
+                    try:
+                        txt = open(pth, encoding="utf-8").read()
+                    except (OSError, UnicodeDecodeError):
+                        continue
+                    if "\nconst " in "\n" + txt or "\npub const " in "\n" + txt:
+                        files.append((os.path.relpath(pth, vlib.REPO), txt))
+    files.sort()
+    stats.update({"repo_corpus_files": len(files), "repo_corpus_consts": 0, "repo_corpus_values_checked": 0})
+    if not files:
+        return
+    text = "\n".join(json.dumps({"src": t, "emit": False}) for _, t in files) + "\n"
+    outs = [json.loads(l) for l in vlib.run_harness(binary, ["run", "c06"], text).split("\n") if l]
+    for (rel, txt), out in zip(files, outs):
+        if out.get("parse") != "ok":
+            continue            # fixtures that are not single-file programs (imports of sibling modules, negative tests)
+        ids = {c["name"]: i for i, c in enumerate(out["consts"])}
+        try:
+            prog = [(ids[c["name"]], None, parse_sx(c["tree"], ids)) for c in out["consts"]]
+        except (ValueError, IndexError):
+            continue
+        orc = Oracle(prog)
+        for c in out["consts"]:
+            stats["repo_corpus_consts"] += 1
+            chk.count_case("repo:" + rel + ":" + c["name"])
+            pv = orc.value(ids[c["name"]])
+            if c["value"] is not None and pv[0] == "val":
+                stats["repo_corpus_values_checked"] += 1
+                if not same_value(c["value"], pv[1]):
+                    fails.append({"what": "value", "program": rel, "const": c["name"], "published": c["value"], "run_time": repr(pv[1])})
+            if c["ty"] is not None and pv[0] == "val" and not py_has_type(pv[1], c["ty"]):
+                fails.append({"what": "type", "program": rel, "const": c["name"], "published_type": c["ty"], "run_time": repr(pv[1])})
 
 
 # ----------------------------------------------------------------------------- thorough: real cargo
